@@ -11,6 +11,6 @@ if os.path.exists(np_):
     needs = open(np_).read().strip()[:1500]
 json.dump({'property': prop, 'source': 'independent sub-agent working in a scratch worktree with only the property text',
            'needs_to_manifest': needs,
-           'confirmed_by': 'tools/verify_mut.sh: demo.py exits 0 on the clean tree and 1 with patch.diff applied; existing suite unchanged (91 passed, 1 pre-existing failure)',
+           'confirmed_by': 'tools/verify_mut.sh: demo.py exits 0 on the clean tree and 1 with patch.diff applied; existing suite unchanged (92 passed on the repaired tree; 91 passed + 1 pre-existing failure before fix 601cb80)',
            'check_run': 'tools/try_seeded.sh %s  (git apply; ./check %s --tier quick; git checkout)' % (d, prop),
            'result': det, 'note': note}, open(os.path.join(path, 'meta.json'), 'w'), indent=1)
